@@ -830,10 +830,15 @@ func (h *history) judge(model, after []cfapi.Zone, targets []publish.Target, res
 				}
 				continue
 			}
-			// later targets of a zone whose lookup failed in this call: the
-			// statement allows "not-found or error for the rest"; a correct
-			// update from the part of the zone that was read is fine too.
+			// later targets of a zone whose lookup failed in this call: error,
+			// or a correct update from the part of the zone that was read.
+			// Not-found is for what does not exist: a record that is there
+			// must not be reported missing because the API failed.
 			lenient = true
+			if res.Code == publish.StatusNotFound && rec != nil {
+				h.violate("error:later-target-reported-as-not-found", "target %d %v: the lookup of zone %q failed earlier in this call (injected API failure); the record exists (%s) but the result is not-found instead of an error", j, t, t.Zone, rec.ID)
+				continue
+			}
 			if res.Code == publish.StatusNotFound || res.Code == publish.StatusError {
 				ctr.add("lenient_after_zone_failure", 1)
 				if res.Code == publish.StatusError && rec != nil {
